@@ -594,6 +594,26 @@ def _logcdf(case, ctx, g):
     ctx.expect("log_normal_cdf_grad", bool((rel <= 2e-3).all()), f"max relative gradient error {float(rel.max()):.3e} at z={float(zz[rel.argmax()]):.6f}")
     ctx.expect("log_normal_cdf_grad", bool((rel[hi] <= 1e-10).all()), f"z>=-1: max relative gradient error {float(rel[hi].max()):.3e}", region="z>=-1")
     ctx.notes["log_normal_cdf_worst_abs_err"] = max(float(err.max()), ctx.notes.get("log_normal_cdf_worst_abs_err", 0.0))
+    # calls whose entries ALL fall into one branch of the piecewise definition (a single value, a 1-d / 2-d block, a column of a
+    # transposed block): same value, same derivative, and the argument comes back unchanged
+    gg = __import__("vf.util", fromlist=["gen"]).gen(1300 + c)
+    for lo, hi_, tag in ((-0.19, 0.19, "near_zero"), (0.25, 6.0, "upper"), (-0.95, -0.25, "middle"), (-30.0, -1.1, "tail")):
+        for shape in ((1,), (7,), (3, 4), "transposed"):
+            if shape == "transposed":
+                zb = (lo + (hi_ - lo) * torch.rand(4, 3, generator=gg, dtype=torch.float64)).t()
+            else:
+                zb = lo + (hi_ - lo) * torch.rand(*shape, generator=gg, dtype=torch.float64)
+            zb = zb.clone(memory_format=torch.preserve_format).requires_grad_(True)
+            keep = zb.detach().clone()
+            ob = log_normal_cdf(zb)
+            (gb,) = torch.autograd.grad(ob.sum(), zb)
+            ctx.expect("log_normal_cdf", bool(torch.equal(zb.detach(), keep)), f"log_normal_cdf changed its argument in place ({tag} block, shape {tuple(zb.shape)})", block=tag)
+            fl = keep.reshape(-1).tolist()
+            rb = torch.tensor([float(mp.log(mp.ncdf(mp.mpf(t)))) for t in fl]).reshape(keep.shape)
+            rg = torch.tensor([float(mp.npdf(mp.mpf(t)) / mp.ncdf(mp.mpf(t))) for t in fl]).reshape(keep.shape)
+            tol_v, tol_g = (2e-3, 2e-3) if tag == "tail" else (1e-12, 1e-10)
+            ctx.expect("log_normal_cdf", bool(((ob.detach() - rb).abs() <= tol_v * (1 + rb.abs())).all()), f"{tag} block {tuple(zb.shape)}: max err {float((ob.detach() - rb).abs().max()):.3e}", block=tag)
+            ctx.expect("log_normal_cdf_grad", bool((((gb - rg) / rg).abs() <= tol_g).all()), f"{tag} block {tuple(zb.shape)}: max relative gradient error {float(((gb - rg) / rg).abs().max()):.3e}", block=tag)
     ctx.cell({"kind": "logcdf", "chunk": c})
 
 
